@@ -24,26 +24,36 @@ macro_rules! t {
 }
 
 #[inline(never)]
-fn f2(a: i64) -> i64 {
-    let b = t!(a + 1);
-    return t!(b * 2);
+fn leaf(a: i64, b: i64) -> i64 {
+    let c = t!(a * 3);
+    let d = t!(c + b);
+    return t!(d - 1);
 }
 
 #[inline(never)]
-fn f1(d: i64) -> i64 {
-    let mut acc = t!(d);
-    if t!(d > 0) {
-        acc = t!(f1(d - 1));
+fn mid(n: i64) -> i64 {
+    let mut acc = t!(0);
+    let mut j = t!(0);
+    while t!(j < n) {
+        if t!(j == 1) {
+            acc = t!(acc + leaf(j, n));
+        } else {
+            acc = t!(acc + j);
+        }
+        j = t!(j + 1);
     }
-    let r = t!(f2(acc));
-    return t!(acc + r);
+    return t!(acc);
 }
 
 fn main() {
     let mut s = t!(0);
     let mut i = t!(0);
     while t!(i < 3) {
-        s = t!(s + f1(i));
+        let m = t!(mid(i + 1));
+        if t!(m > 2) {
+            s = t!(s + m);
+        }
+        s = t!(s + leaf(i, 2));
         i = t!(i + 1);
     }
     t!();
@@ -68,5 +78,5 @@ fn gate2() {
 fn report(s: i64) {
     gate2();
     println!("TICK={} S={}", unsafe { TICK }, s);
-    std::process::exit((s % 100) as i32);
+    std::process::exit((s.rem_euclid(100)) as i32);
 }
